@@ -456,9 +456,11 @@ class Counters(EngineBase):
         procs = [{"pid": p, "ppid": 1, "comm": "w%d" % p,
                   "utime": rng.randrange(0, 1000),
                   "stime": rng.randrange(0, 1000)} for p in pids]
-        return {"prop": "C07", "world": {"procs": procs, "mono0": 60000.0 +
-                                         rng.randrange(0, 100)},
-                "ops": ops, "timed": []}
+        return {"prop": "C07", "world": {
+            "procs": procs, "mono0": 60000.0 + rng.randrange(0, 100),
+            # sleep() may return late (loaded machine, stopped process)
+            "sleep_jitter": rng.choice([0.0, 0.0, 0.003, 0.05, 1.5])},
+            "ops": ops, "timed": []}
 
     @staticmethod
     def _deltas(t1, t2, nf):
